@@ -510,9 +510,9 @@ func loadBatch(cfg *runConfig, t0 time.Time) (*loaded, error) {
 	}
 	for _, ip := range cfg.Interp {
 		for _, sp := range prog.AllPackages() {
-			if sp.Pkg.Path() == ip {
+			if sp.Pkg.Path() == ip || (strings.HasSuffix(ip, "/...") && strings.HasPrefix(sp.Pkg.Path(), strings.TrimSuffix(ip, "..."))) {
 				sp.Build()
-				ld.built[ip] = true
+				ld.built[sp.Pkg.Path()] = true
 			}
 		}
 	}
